@@ -67,8 +67,26 @@ fn accepted(bytes: &[u8], stats: &mut Stats) -> bool {
 /// compared term by term with the facts; cuts at the section boundaries and near the end, one
 /// appended byte.
 pub fn check_bulk(n: u32, mult: u32, v: u8, style: u8, stats: &mut Stats) -> CheckResult {
+    check_big_file(super::common::bulk_facts(n, mult, 25), n, v, style, stats)
+}
+
+/// Other big shapes through the same check: "fanin" = one term with `n` direct parents, "deep" = an is_a chain
+/// of `n` links whose term records are written deepest first.
+pub fn check_shape(shape: &str, n: u32, mult: u32, v: u8, style: u8, stats: &mut Stats) -> CheckResult {
+    let facts = match shape {
+        "fanin" => super::common::fanin_facts(n, mult, 9),
+        "deep" => super::common::deep_facts(n, mult, 9),
+        _ => return fail("harness/bad-case", "unknown shape"),
+    };
+    let r = check_big_file(facts, n, v, style, stats);
+    if r.is_ok() {
+        stats.label(if shape == "fanin" { "direct-parents>255" } else { "depth>255-deepest-record-first" });
+    }
+    r
+}
+
+fn check_big_file(facts: Facts, n: u32, v: u8, style: u8, stats: &mut Stats) -> CheckResult {
     ensure!((1..=3).contains(&v), "harness/bad-case", "version must be 1..=3");
-    let facts = super::common::bulk_facts(n, mult, 25);
     let expected = restrict_to_version(&facts, v);
     let bytes = encode_styled(&facts, v, style);
     let ont = match decode(&bytes) {
@@ -321,7 +339,7 @@ impl Property for C08 {
         }
     }
     fn required_labels(&self, _tier: Tier) -> Vec<&'static str> {
-        vec!["nontrivial", "v1", "v2", "v3", "flags", "section>65535-bytes", "term-name>=247-bytes", "record-name>=247-bytes", "bulk>65535-terms"]
+        vec!["nontrivial", "v1", "v2", "v3", "flags", "section>65535-bytes", "term-name>=247-bytes", "record-name>=247-bytes", "bulk>65535-terms", "direct-parents>255", "depth>255-deepest-record-first"]
     }
     fn run_generated(&self, tier: Tier, seed: u64, n: u64, stats: &mut Stats) -> Option<(Value, Failure)> {
         run_typed(strategy(tier), seed, n, stats, check)
@@ -332,6 +350,11 @@ impl Property for C08 {
             stats.cases += 1;
             return Ok(check_bulk(v.0, v.1, v.2, v.3, stats));
         }
+        if let Some(b) = case.get("shape") {
+            let v: (String, u32, u32, u8, u8) = serde_json::from_value(b.clone()).map_err(|e| e.to_string())?;
+            stats.cases += 1;
+            return Ok(check_shape(&v.0, v.1, v.2, v.3, v.4, stats));
+        }
         replay_typed::<Case, _>(case, stats, check)
     }
     fn isolated_plans(&self, tier: Tier, seed: u64) -> Vec<Value> {
@@ -341,6 +364,14 @@ impl Property for C08 {
             plans.push((70_000, mult, 2, 2));
             plans.push((131_080, mult, 3, 3));
         }
-        plans.into_iter().map(|p| json!({"bulk": p})).collect()
+        let mut out: Vec<Value> = plans.into_iter().map(|p| json!({"bulk": p})).collect();
+        out.push(json!({"shape": ("fanin", 300u32, mult, 3u8, (seed % 4) as u8)}));
+        out.push(json!({"shape": ("deep", 300u32, mult, 2u8, ((seed + 2) % 4) as u8)}));
+        if tier == Tier::Thorough {
+            out.push(json!({"shape": ("fanin", 66_000u32, mult, 1u8, 1u8)}));
+            out.push(json!({"shape": ("deep", 5_000u32, mult, 3u8, 3u8)}));
+            out.push(json!({"shape": ("deep", 300u32, mult, 1u8, 0u8)}));
+        }
+        out
     }
 }
